@@ -230,8 +230,13 @@ impl RR {
         });
         let o = v.as_object_mut().unwrap();
         match &self.rdata {
-            RData::A(_) | RData::Aaaa(_) => {
+            RData::A(x) => {
                 o.insert("ip".into(), json!(self.ip_string().unwrap()));
+                o.insert("o".into(), json!(x));
+            }
+            RData::Aaaa(x) => {
+                o.insert("ip".into(), json!(self.ip_string().unwrap()));
+                o.insert("o".into(), json!(x));
             }
             RData::Ptr(n) | RData::Cname(n) => {
                 o.insert("t".into(), n.to_json());
